@@ -50,6 +50,11 @@ func parseSDL(root *Root, reader io.Reader) (types []Type, extends []*Extend, er
 		if err == nil {
 			token, err = p.readToken()
 		}
+		if err == nil && len(token) == 0 && !p.eof {
+			// Not at the end and not the start of a token. The character
+			// must be consumed or reported otherwise this loop never ends.
+			err = fmt.Errorf("%w, unexpected character '%c' at %d:%d", ErrParse, p.onDeck, p.line, p.col)
+		}
 		if err == nil && 0 < len(token) {
 			switch token {
 			case directiveStr:
